@@ -14,19 +14,19 @@ CLAIMED = {
          "Structural necessary condition of crash-restart equivalence: module code never writes process-resident state (package variables, keeper/server/hook fields, memory stores), so it is a function of (committed stores, message). Decided for every consensus-reachable function; SDK/IAVL restart behaviour is not decided.",
          "Trusts dependencies and generated code; aliasing through nested heap pointers is not tracked.",
          "DESIGN.md §3 C03"),
- "C02": ("E4: natural-loop classification with termination variants (induction variable + bounding test, iterator Valid/Next, range Next, shrinking slice), call-cycle detection, guard dominance for divisions and coin subtractions in block-hook-reachable code, validated-parameter bound derivation, coupled-delta agreement for the end-block subtrahend Shard.Pledge; field-delta coupling of the begin-block divisor Pool.TotalStorage with Pledge.TotalStorage; upward count against a list the loop only shortens",
+ "C02": ("E4: natural-loop classification with termination variants (induction variable + bounding test, iterator Valid/Next, range Next, shrinking slice), call-cycle detection, guard dominance for divisions and coin subtractions in block-hook-reachable code, validated-parameter bound derivation, coupled-delta agreement for the end-block subtrahend Shard.Pledge; field-delta coupling of the begin-block divisor Pool.TotalStorage with Pledge.TotalStorage; upward count against a list the loop only shortens; persisted-cursor index check (a slice indexed by a value flowing from a store Get is compared with its length) in block-hook-reachable code",
          "Structural necessary conditions of liveness over every consensus-reachable hand-written function: each loop has a recognised termination variant, no recursion; in code that runs without panic recovery (Begin/EndBlock, staking hooks fired by the staking end-blocker) every division has a provably non-zero divisor and every Coin subtraction is dominated by a comparison of its operands. A pass is a proof of those clauses for all paths; index/nil/bank panics and time bounds are not decided.",
          "Trusts dependencies and generated code; stored bech32 addresses valid (A-addr); record fields non-negative for arithmetic form AF1 (A-nonneg); guard and use of a memory-held operand not separated by a write (A-flow).",
          "DESIGN.md §3 C02"),
- "C18": ("E6: writer/reader table agreement between the store prefixes written by consensus code (effect summaries over the call graph) and those read by ExportGenesis / written by InitGenesis; GenesisState field and parameter-key symmetry; export getters return every record (iterator loop or Iterate+callback idiom) decoded into a per-iteration variable",
+ "C18": ("E6: writer/reader table agreement between the store prefixes written by consensus code (effect summaries over the call graph) and those read by ExportGenesis / written by InitGenesis; GenesisState field and parameter-key symmetry; export getters return every record (iterator loop or Iterate+callback idiom) decoded into a per-iteration variable; each duplicate-index loop of a GenesisState.Validate consults the map it fills",
          "Structural necessary condition of the genesis round trip: every constant store prefix that consensus code writes is exported and re-imported by its module, every GenesisState field is assigned on export and consumed on import, every registered parameter key is exported. A missing table entry is state silently dropped by export/import. Validate(), JSON fidelity and continuation equivalence are not decided.",
          "Trusts dependencies; store keys are opened only through prefix.NewStore(ctx.KVStore(k.<key>), KeyPrefix(const)) (an unresolved prefix on a consensus path makes the check undecided, not passing).",
          "DESIGN.md §3 C18"),
- "C10": ("E2/E7: path-sensitive guard dominance over normalised branch predicates (flags expanded to the comparisons that set them) + argument provenance of keyed accesses and bank counter-parties; argument provenance of the verifying DID manager (created with the claimed owner); guard rows of UpdatePaymentAddress (who can be made the payer of a DID's orders)",
+ "C10": ("E2/E7: path-sensitive guard dominance over normalised branch predicates (flags expanded to the comparisons that set them) + argument provenance of keyed accesses and bank counter-parties; argument provenance of the verifying DID manager (created with the claimed owner); guard rows of UpdatePaymentAddress (who can be made the payer of a DID's orders); per-iteration decode targets (protobuf Unmarshal does not reset) in every loop",
          "Structural necessary conditions of actor authorization, for all paths of Complete, Cancel, Ready, Migrate, Store (payer selection) and the five node handlers: every state-changing effect is reachable only through the comparisons that tie the signer to the provider/creator/payer it claims to be; node handlers key every record and coin movement by the signer, and GetSigners returns the Creator address. A reported bypass is a concrete branch sequence. Honesty of TxAddresses lists is not decided.",
          "Trusts dependencies; canonical access-path terms ignore aliasing through nested heap pointers; a boolean copied into a flag without ever being tested directly is not expanded (would be reported, not passed).",
          "DESIGN.md §3 C10"),
- "C09": ("E2/E1: path-sensitive guard dominance of every model-changing call by signature verification and the owner/read-write comparison against the signing DID; argument provenance from the signed proposal; capability matrix for the model store prefixes; argument provenance of the verifying DID manager (created with the claimed owner); intra-function may-alias taint: slice fields of the signed request are never written in place (element store, copy, sort, through append)",
+ "C09": ("E2/E1: path-sensitive guard dominance of every model-changing call by signature verification and the owner/read-write comparison against the signing DID; argument provenance from the signed proposal; capability matrix for the model store prefixes; argument provenance of the verifying DID manager (created with the claimed owner); intra-function may-alias taint: slice fields of the signed request are never written in place (element store, copy, sort, through append); both grant lists assigned on every persisting path of UpdatePermission",
          "Structural necessary conditions of data-model authorization for all paths and all field values of Store, Renew, Terminate, UpdataPermission, Complete->UpdateMeta: no model-changing effect is reachable without verifySignature succeeding over the proposal whose fields feed the effect and without the owner / grantee comparison; model prefixes are written only from the tabled entry points. Field-crafting bypasses (e.g. commit ids embedding the data id) are exactly the paths the search looks for. Cryptographic validity is the trusted library's.",
          "Trusts sao-did VerifyJWS (A-sig) and dependencies; access-path terms ignore aliasing through nested heap pointers.",
          "DESIGN.md §3 C09"),
@@ -42,11 +42,11 @@ CLAIMED = {
          "Structural necessary conditions for the super-node role: promotion only under status mask AND capacity threshold AND delegation-share check (along every call chain); each failing requirement in the re-evaluation routine is followed by demotion; each share-affecting staking hook re-evaluates on every path and the hooks are registered with staking; capacity withdrawal re-tests after the decrement and demotes; Reset clears the role first; decision uses committed state only (D3). Agreement of the flag with the predicate over staking histories is not decided.",
          "Trusts the staking keeper's hook call protocol as documented in DESIGN §1; dependencies trusted.",
          "DESIGN.md §3 C20"),
- "C15": ("E2/E3: guard dominance and must-avoid over the two node producers, index selection and GetSps; provenance of RandomSP's result; for-all accumulation of ignore lists at the four call sites; def-use confinement of the unfiltered candidate list to the ignore filter; swap-only (permutation) check of every element store under SelectNodes",
+ "C15": ("E2/E3: guard dominance and must-avoid over the two node producers, index selection and GetSps; provenance of RandomSP's result; for-all accumulation of ignore lists at the four call sites; def-use confinement of the unfiltered candidate list to the ignore filter; swap-only (permutation) check of every element store under SelectNodes; per-iteration decode targets in the node scans",
          "Structural necessary conditions of replica placement for all node populations, ignore lists and seeds: a node is produced for selection only after the capacity/status/reputation(/role, not-ignored) tests; RandomSP returns only nodes from those producers; an index equal to an earlier one is never appended; GetSps succeeds only with 0 < replica <= selected; every RandomSP call gets an ignore list that accumulates every existing holder (nil only for a new order). Uniformity and the count bound as arithmetic are not decided; termination of RandomIndex is C02.",
          "Trusts dependencies; cyclic φ terms are compared by SSA identity where term text would be unstable.",
          "DESIGN.md §3 C15"),
- "C16": ("E1/E2/E3: writer table of the counter keys, term identities in Append*, guard dominance for in-flight exclusion and base-version comparison (strict equality and tested-against-latest clauses); interprocedural check that Order.Status is set to a non-Completed value only on a fresh order or one tested Pending (record followed up the call chain through pointer parameters)",
+ "C16": ("E1/E2/E3: writer table of the counter keys, term identities in Append*, guard dominance for in-flight exclusion and base-version comparison (strict equality and tested-against-latest clauses); interprocedural check that Order.Status is set to a non-Completed value only on a fresh order or one tested Pending (record followed up the call chain through pointer parameters); Renew reaches RenewOrder/UpdateMeta only for a model whose Status is MetaComplete",
          "Structural necessary conditions of identifier uniqueness and version linearity: counters written only by Append*/genesis with read, store-under-read, read+1, return-read; an existing model is re-pointed only when Complete and only when its latest order is Completed; the base-version comparison must be an equality (today it is a substring test: known finding). History shape over interleavings is not decided.",
          "Trusts dependencies.",
          "DESIGN.md §3 C16"),
@@ -54,11 +54,11 @@ CLAIMED = {
          "Structural necessary conditions of block-reward accounting: coins are minted only from the node begin-blocker and never burnt (proof over the call graph); the counter grows only after a successful mint by exactly the minted coin; mint is dominated by the pledge/reward tests and the baseline replacement is a guarded minimum; every persisted capacity change is preceded by settlement at the old capacity and followed by re-basing; a claim persists exactly the fractional remainder. Halving numerics and the sum bound are not decided (the division by pool.TotalStorage is reported under C02).",
          "Trusts dependencies; value identity is term identity (same access path, no intervening write assumed within the handler).",
          "DESIGN.md §3 C08"),
- "C06": ("E1/E7/E3/E2: module-account registration table vs bank call sites, bank error discipline, closed table of money flows, status classification of refund contributions in Withdraw; accrual-clock pairing (reward accrual persisted only with LastRewardAt := height); data dependence of the replacement shard's Duration on the replaced shard's CreatedAt and Duration at the hand-over",
+ "C06": ("E1/E7/E3/E2: module-account registration table vs bank call sites, bank error discipline, closed table of money flows, status classification of refund contributions in Withdraw; accrual-clock pairing (reward accrual persisted only with LastRewardAt := height); data dependence of the replacement shard's Duration on the replaced shard's CreatedAt and Duration at the hand-over; ShardRelease lowers TotalShardPledged by the recorded collateral (a field whose address is stored elsewhere counts as written)",
          "Three necessary structural clauses of escrow solvency: every module account named in a bank call is registered with the permission the call needs (else the bank panics and the payout cannot happen); the error of every bank mutator call is consumed (else records are updated for a transfer that failed); every bank call site matches the closed table of flows (modules, counter-party term, amount form) — a new or altered outflow is reported. The inequality balance >= sum owed is not decided.",
          "Trusts bank keeper semantics (A-bank) and dependencies.",
          "DESIGN.md §3 C06"),
- "C07": ("E7/E2/E3: closed flow table for the node escrow, recipient provenance at every ShardRelease call site, guard dominance for capacity withdrawal and use, booked-amount identities and coupled deltas",
+ "C07": ("E7/E2/E3: closed flow table for the node escrow, recipient provenance at every ShardRelease call site, guard dominance for capacity withdrawal and use, booked-amount identities and coupled deltas; RepayPledgeDebt lowers the debt record wherever it consumes a coin",
          "Structural necessary conditions of collateral safety: collateral leaves the node escrow only through tabled flows to the signer or to the provider recorded in the released shard; the amount released is shard.Pledge net of debt repaid first; withdrawal is dominated by size <= total − used and use by the free-capacity test; the collateral stored in a shard equals coins taken plus debt recorded, and the provider's total moves by the same amount (violated at renewal: known finding). Numeric non-negativity and rounding are not decided.",
          "Trusts dependencies; value identity is term identity.",
          "DESIGN.md §3 C07"),
@@ -66,7 +66,7 @@ CLAIMED = {
          "Structural necessary condition of aggregate accounting: each aggregate is updated only together with, and by the same term as, the per-shard/per-provider quantity it sums (append vs release siblings agree; provider and pool totals move together; total shard collateral moves by what is stored in the shard — violated at renewal: known finding). The equalities themselves on reachable states are not decided.",
          "Trusts dependencies; parameters of sibling functions are matched by record type.",
          "DESIGN.md §3 C14"),
- "C04": ("E7/E3/E2: closed table of money flows; charge-once identities (single charge site on every success path, outside loops, amount = persisted Order.Amount, before persistence); deposit only on first completion; status classification of refund contributions in Withdraw; loop-variable address escape (T-loopvar) in the sao handlers",
+ "C04": ("E7/E3/E2: closed table of money flows; charge-once identities (single charge site on every success path, outside loops, amount = persisted Order.Amount, before persistence); deposit only on first completion; status classification of refund contributions in Withdraw; loop-variable address escape (T-loopvar) in the sao handlers; a freshly built Worker/Pool record replaces the stored one only under !found",
          "Topology and identity clauses of payment conservation: order escrow pays only the market escrow, the payer's/owner's payment address or the DID ledger; market escrow pays only order escrow, the claiming provider or the owner's payment address; Store and RenewOrder charge exactly once, exactly the amount they persist. Price formula, income accrual, refund arithmetic and the sum identity income + refunds = charged are runtime quantities and are NOT decided.",
          "Trusts dependencies; value identity is term identity plus 'no write to the variable after the charge'.",
          "DESIGN.md §3 C04"),
@@ -74,15 +74,15 @@ CLAIMED = {
          "Structural necessary conditions of full refund and clean rollback: every success path of CancelOrder refunds the recorded amount (flow table), rolls the model back and removes the order, in that order; every caller first removes all shards or is on the pending branch, and never cancels a completed order; Store/Ready/timeout cannot write pledge records nor take provider coins (proved as absence of capability); removing a model removes its schedule entry. Balance deltas and re-assignment histories are not decided.",
          "Trusts dependencies; over-approximate call graph.",
          "DESIGN.md §3 C05"),
- "C11": ("E3/E1: typestate (period started => release scheduled at own end height) with path-sensitive search, capability tables for release and model deletion, for-all consumption of schedule entries, lifetime coupling, take-over stores dominating the migration hand-over; typestate in Complete: expiry scheduled and success => model lifetime extended; remaining-term data dependence at the hand-over; list provenance of the un-scheduling write-back",
+ "C11": ("E3/E1: typestate (period started => release scheduled at own end height) with path-sensitive search, capability tables for release and model deletion, for-all consumption of schedule entries, lifetime coupling, take-over stores dominating the migration hand-over; typestate in Complete: expiry scheduled and success => model lifetime extended; remaining-term data dependence at the hand-over; list provenance of the un-scheduling write-back; genesis pairing of the order/shard id counters",
          "Structural necessary conditions of retention and expiry: wherever a shard's paid period starts or rotates, every success path schedules its release at that shard's CreatedAt+Duration; shards are removed/collateral released only from the tabled operations; models are deleted only by Terminate and the model end-blocker; the end-blockers handle every id listed for the current height and drop the entry; the model is extended to the scheduled end height. 'Exactly that many blocks later' and exactly-once as temporal facts are not decided.",
          "Trusts dependencies; Renew is tabled for CAP-release only because the call graph is path-insensitive in UpdateMeta's operation switch.",
          "DESIGN.md §3 C11"),
- "C12": ("E3/E2: typestate (hand-over => timeout scheduled) path-sensitive in the isProvider flag, exit classification of the timeout handler by dominating facts, effect scan of the nothing-waiting branch, for-all consumption, close-implies-replace pairing inside the re-assignment loop",
+ "C12": ("E3/E2: typestate (hand-over => timeout scheduled) path-sensitive in the isProvider flag, exit classification of the timeout handler by dominating facts, effect scan of the nothing-waiting branch, for-all consumption, close-implies-replace pairing inside the re-assignment loop; the refund of dropped replicas lowers Order.Amount and is persisted in the same function",
          "Structural necessary conditions of timeout progress: after providers are selected for waiting shards every success path schedules the order's next examination; every exit of the timeout handler is rescheduled or dominated by an allowed reason; the nothing-waiting branch moves no coins and removes only non-completed shards; the end-blocker hands every listed order to the handler. Eventual completion and the ten-interval bound as arithmetic are not decided.",
          "Trusts dependencies.",
          "DESIGN.md §3 C12"),
- "C13": ("E3: creation/alias/schedule pairings — new shard id listed and its order persisted (interprocedural through pointer-parameter helpers), model and alias created/removed together with the alias key from the same record, period start => release scheduled, model removal => schedule entry removed; alias/metadata creation dominated by emptiness tests on the written keys; every success path after TerminateOrder runs the shard-removal loop to its end; provenance of the OrderId of every record handed to AppendShard (the *Order parameter of the creating function); loop-variable address escape in the sao handlers",
+ "C13": ("E3: creation/alias/schedule pairings — new shard id listed and its order persisted (interprocedural through pointer-parameter helpers), model and alias created/removed together with the alias key from the same record, period start => release scheduled, model removal => schedule entry removed; alias/metadata creation dominated by emptiness tests on the written keys; every success path after TerminateOrder runs the shard-removal loop to its end; provenance of the OrderId of every record handed to AppendShard (the *Order parameter of the creating function); loop-variable address escape in the sao handlers; for-all guard in Renew: every listed shard found and Completed/Migrating before the renewal order is created",
          "Creation-, alias- and schedule-side necessary conditions of referential integrity. Deletion-side list maintenance across shared renew orders and whole-state agreement need collection reasoning and are not decided.",
          "Trusts dependencies.",
          "DESIGN.md §3 C13"),
